@@ -143,13 +143,14 @@ def write_loop(ctx, prog, viol):
     else:
         # several locals carry state across iterations: their mutual invariant is not known, so no inductive step; the loop is
         # unrolled from the function entry instead (stated bound: up to 4 iterations)
-        ctx.bound('write_loop', f"no inductive step (loop-carried locals {[(l, f.locals[l]) for l in carried]}): unrolled from entry, <= 3 iterations, at most 64 bytes queued")
+        ctx.bound('write_loop', f"no inductive step (loop-carried locals {[(l, f.locals[l]) for l in carried]}): unrolled from entry, <= 4 iterations, at most 64 bytes queued")
         st.pc.append(z3.ULE(L, 64))     # small buffers keep the chained offset arithmetic of an unrolled loop within the solver's reach
         cur, width, starts = None, 64, [st]
-        ks = (1, 2)
+        ks = (1, 2, 3)
     c0 = z3.BitVec('accepted.before', width) if inductive else z3.BitVecVal(0, 64)
     for k in ks:
-        ex = io_executor(ctx, prog, unwind=k + 3, extra=write_env(prog, f))
+        # without an inductive step every loop on the way (also loops of helper functions the write function calls) is unrolled at most 4 times
+        ex = io_executor(ctx, prog, unwind=(k + 3 if inductive else 4), extra=write_env(prog, f))
         ex.cut_revisit = (fname, k)
         n = 0
         for s0 in starts:
@@ -175,6 +176,8 @@ def write_loop(ctx, prog, viol):
                 out = err_name(prog, rv)
                 if not isinstance(rv, Panic) or rv.kind == 'cut':
                     conds.append(sealed_flag(prog, w1) == sym('sealed0', z3.BoolSort()))   # writing never seals or un-seals the buffer
+                if isinstance(rv, Panic) and rv.kind == 'bound' and not inductive:
+                    continue      # beyond the stated unrolling bound
                 if isinstance(rv, Panic) and rv.kind == 'cut':
                     if inductive:
                         pos = s.cut_frames[0].locals[cur].value
